@@ -20,7 +20,7 @@
      deleted nor registered again and — when x (exclusive) — nobody registered v again. *)
 From Coq Require Import List ZArith Bool Permutation Lia.
 From GZgen Require Import C13Consts.
-From GZ Require Import C13.Model C13.Proofs C13.ProofsB C13.ProofsC C13.ProofsD C13.ProofsE C13.ProofsF C13.ProofsG C13.ProofsH C13.ProofsI C13.ProofsJ C13.ProofsK C13.CheckProofs C13.GenProofs.
+From GZ Require Import C13.Model C13.Proofs C13.ProofsB C13.ProofsC C13.ProofsD C13.ProofsE C13.ProofsF C13.ProofsG C13.ProofsH C13.ProofsI C13.ProofsJ C13.ProofsK C13.ProofsL C13.CheckProofs C13.GenProofs.
 Import ListNotations.
 Open Scope Z_scope.
 
@@ -116,6 +116,50 @@ Theorem consistency_checker_is_sound : forall h ds pos hi,
   consistent_b h pos hi ds = true -> consistent h pos hi ds.
 Proof. exact consistent_b_sound. Qed.
 Print Assumptions consistency_checker_is_sound.
+
+(* cluster.reload (reconnect) over ANY set of watched keys.  [wcluster]: watched key -> the
+   deliveries its machinery has obtained so far; [hs k]: etcd's mutations inside the range of key
+   k; [reload_all]: the code - for EVERY watched key a goroutine loads the key (linearizable Get:
+   the store now) and watches from that revision.  Whatever consistent deliveries the keys had
+   before (stale snapshots, replays under way, registrations made during the outage and never
+   delivered), afterwards EVERY watched key is consistent, caught up with etcd's present store and
+   its registry copy IS that store ... *)
+Theorem reload_restores_every_watched_key : forall hs snaps calls (c : wcluster),
+  (forall k ds, In (k, ds) c -> consistent (hs k) 0 0 ds) ->
+  (forall k key, mget key (snap_map (snaps k)) = mget key (etcd_state (hs k) (length (hs k)))) ->
+  forall k ds', In (k, ds') (reload_all hs snaps calls c) ->
+  consistent (hs k) 0 0 ds' /\
+  final_pos_g 0 0 ds' = (length (hs k), length (hs k)) /\
+  forall key, mget key (truth (map ev_of_g ds')) = mget key (etcd_state (hs k) (length (hs k))).
+Proof. exact reload_restores_every_key. Qed.
+Print Assumptions reload_restores_every_watched_key.
+
+(* ... so the subscribers of every watched key show the registrations (no key is lost:
+   ProofsL.reload_all_keys).  The variant whose goroutines all take the LAST key (seeded change
+   C13-10) is refuted in Pinned.reload_last_key_refuted. *)
+Theorem reload_views_of_every_watched_key : forall hs snaps calls (c : wcluster),
+  (forall k ds, In (k, ds) c -> consistent (hs k) 0 0 ds) ->
+  (forall k key, mget key (snap_map (snaps k)) = mget key (etcd_state (hs k) (length (hs k)))) ->
+  forall k ds' xs cn, In (k, ds') (reload_all hs snaps calls c) ->
+  wf_run (init xs) (map ev_of_g ds') ->
+  In cn (conts (run (init xs) (map ev_of_g ds'))) ->
+  let now := etcd_state (hs k) (length (hs k)) in
+  NoDup (c_values cn) /\
+  (cexcl cn = false -> forall v, In v (c_values cn) <-> registered now v) /\
+  (cexcl cn = true -> forall v, In v (c_values cn) -> registered now v).
+Proof. exact reload_views_every_key. Qed.
+Print Assumptions reload_views_of_every_watched_key.
+
+(* non-vacuity: keys 1 and 2; key 1 has seen put 11=10 and missed put 12=20 during the outage,
+   key 2 has seen nothing of put 21=30 *)
+Example ex_reload_two_keys :
+  let hs := fun k => if k =? 1 then [BPut 11 10; BPut 12 20] else [BPut 21 30] in
+  let snaps := fun k => if k =? 1 then [(11, 10); (12, 20)] else [(21, 30)] in
+  let calls := fun k => if k =? 1 then [LAdd 12 20] else [LAdd 21 30] in
+  let c := [(1, [GLoad 0 [] []; GRestart 0; GResp 0 [BPut 11 10]]); (2, [GLoad 0 [] []; GRestart 0])] in
+  map (fun kd => (fst kd, final_pos_g 0 0 (snd kd), truth (map ev_of_g (snd kd)))) (reload_all hs snaps calls c) =
+    [(1, (2%nat, 2%nat), [(12, 20); (11, 10)]); (2, (1%nat, 1%nat), [(21, 30)])].
+Proof. reflexivity. Qed.
 
 (* The executable judgement that prop_ok applies to what the REAL cluster showed
    (Check.prop_thread, at a quiescent point at which etcd is not withholding deliveries: [t] = the
